@@ -8,8 +8,8 @@
       nn                 N.of_nat (complex indices are stored as N in the classes) *)
 From Coq Require Import List NArith ZArith.
 Require mathcomp.algebra.mxalgebra mathcomp.algebra.matrix mathcomp.algebra.rat.
-Require SK.lib.RankBridge SK.proof.C19_Rank SK.proof.C19_ClassRank.
-From SK Require Import lib.Reach model.C17_Model model.C19_Model proof.C17_Proof proof.C19_Proof proof.C19_Complexes proof.C19_Linkage proof.C19_Regular proof.C19_DefOne.
+Require SK.lib.RankBridge SK.proof.C19_Rank SK.proof.C19_ClassRank SK.proof.C19_Nullity.
+From SK Require Import lib.Reach model.C17_Model model.C19_Model model.C19_Api model.C19_Fast model.C17_NodeModel model.C19_Nodes proof.C19_FastProof proof.C19_ApiProof proof.C19_NodesProof proof.C17_Proof proof.C19_Proof proof.C19_Complexes proof.C19_Linkage proof.C19_Regular proof.C19_DefOne.
 Import ListNotations.
 
 (** (1) complexes = the distinct reactant and product multisets: the list has no duplicate, a vector is in it iff it is
@@ -286,3 +286,146 @@ Theorem C19_stale_summary_route_refuted :
   a_ld (route 2 lad_x2 (route 0 lad_x1 a_init)) = Some [0%Z] /\ a_ld (route 0 lad_x2 a_init) = Some [0%Z].
 Proof. exact stale_summary_route_refuted. Qed.
 Print Assumptions C19_stale_summary_route_refuted.
+
+(* ====================================================================================================================
+   Round 5: the PUBLIC API as a state machine over ARBITRARY call sequences (model/C19_Api.v; evaluated by the
+   correspondence for the api-seq population: after every call the result / error code and every stored field).
+   [call] = (method, the network as it is at the time of the call, float argmax positions for the nondegeneracy test);
+   [run_calls o cs ast_init] = the object after the calls cs on a new analyzer built with the options o.
+   ==================================================================================================================== *)
+
+(** (17) after ANY sequence of public calls, with ANY edits of the network between them, everything the object stores
+         describes ONE network — the one it saw at its last successful compute_summary (x below): complexes, complex graph and
+         summary are those of x; the class deficiencies (if stored) are x's; the deficiency-one result (if stored) was
+         computed from exactly the stored deficiency, the stored class deficiencies and the stored complex graph; the
+         nondegeneracy result (if stored) used x's complexes.  Without a summary nothing is stored. *)
+Theorem C19_api_coherent : forall (o : opts) (cs : list call),
+  let st := run_calls o cs ast_init in
+  match s_sum st with
+  | None => s_ld st = None /\ s_one st = None /\ s_nd st = None
+  | Some sn =>
+      let x := sn_x sn in
+      let cg := complex_graph (hs_net x) (hs_iso x) in
+      hs_net x <> [] /\
+      sn_cs sn = fst cg /\ sn_arcs sn = snd cg /\ sn_sum sn = compute_summary (hs_net x) (hs_iso x) (the_rank o x) /\
+      (forall ld, s_ld st = Some ld ->
+         ld = linkage_deficiencies (linkage_classes (snd cg) (length (fst cg))) (map rc_r (hs_ccs x))) /\
+      (forall d, s_one st = Some d ->
+         s_ld st = Some (one_ld d) /\ one_delta d = deficiency (sn_sum sn) /\
+         one_reg d = regular (snd cg) (length (fst cg)) /\
+         one_hyp d = deficiency_one_hypotheses (sn_sum sn) (one_ld d) (one_reg d)) /\
+      (forall d, s_nd st = Some d -> nd_max d = max_complex_size (fst cg))
+  end.
+Proof. exact api_one_network. Qed.
+Print Assumptions C19_api_coherent.
+
+(** (18) the last clause of the property at the level of the API: whatever was called before, with whatever edits in between,
+         the class deficiencies the object reports never sum to more than the deficiency it reports next to them
+         (rank_fn given; ranks justified by accepted certificates of the network of the last compute_summary). *)
+Theorem C19_api_linkage_sum : forall (o : opts) (cs : list call) (sn : snapshot) (ld : list Z),
+  let st := run_calls o cs ast_init in
+  o_rank o = true -> s_sum st = Some sn -> s_ld st = Some ld ->
+  certs_ok (hs_net (sn_x sn)) (hs_iso (sn_x sn)) (hs_rc (sn_x sn)) (hs_ccs (sn_x sn)) = true ->
+  (zsum ld <= deficiency (sn_sum sn))%Z.
+Proof. exact api_linkage_sum. Qed.
+Print Assumptions C19_api_linkage_sum.
+
+(** (19) compute_crn_deficiency from ANY previous state: no reaction -> ValueError and the object is untouched; otherwise result
+         and new state are those of a brand-new analyzer, and (default options) that state is the one of the staged machine
+         of theorem (15) whose observable is run19. *)
+Theorem C19_api_full_route : forall (o : opts) (x : hist_step) (f : bool) (mis : list nat) (st : ast),
+  (hs_net x = [] -> op_crn o x f mis st = (st, RValueError)) /\
+  (hs_net x <> [] -> op_crn o x f mis st = op_crn o x f mis ast_init) /\
+  (hs_net x <> [] -> to_old (fst (op_crn default_opts x false [] st)) = route 0 x a_init).
+Proof. exact api_full_route. Qed.
+Print Assumptions C19_api_full_route.
+
+(** (20) exceptions: a call that raises leaves the object untouched, except compute_crn_deficiency(run_nondegeneracy=True)
+         failing in its last stage (the object then holds the state of compute_crn_deficiency()); and which call raises what:
+         ValueError <-> the network has no reaction; RuntimeError k <-> the stage the method reads is missing
+         (k numbers the message, harness/props/C19.py:_RT). *)
+Theorem C19_api_errors : forall (o : opts) (c : call) (st : ast),
+  (is_error (snd (apply_op o c st)) = true ->
+     fst (apply_op o c st) = st \/
+     (c_op c = OCrn true /\ fst (apply_op o c st) = fst (op_crn o (c_x c) false [] st))) /\
+  (snd (op_summary o (c_x c) st) = RValueError <-> hs_net (c_x c) = []) /\
+  (snd (op_linkage st) = RRuntime 2 <-> s_sum st = None) /\
+  (op_check0 st = RRuntime 3 <-> s_sum st = None) /\
+  (op_check1 st = RRuntime 4 <-> s_sum st = None) /\
+  (op_check1 st = RRuntime 5 <-> s_sum st <> None /\ s_ld st = None) /\
+  (op_reg st = RRuntime 6 <-> s_sum st = None) /\
+  (snd (op_nondeg o (c_x c) (c_mis c) st) = RRuntime 7 <-> o_stoich o = false) /\
+  (snd (op_nondeg o (c_x c) (c_mis c) st) = RRuntime 8 <-> o_stoich o = true /\ s_sum st = None) /\
+  (snd (op_one o (c_x c) st) = RValueError <-> s_sum st = None /\ hs_net (c_x c) = []).
+Proof. exact api_error_spec. Qed.
+Print Assumptions C19_api_errors.
+
+(** (21) nondegeneracy_test, exact part: with an accepted rank certificate of S the reported nullity is the dimension of the left
+         kernel {y | y S = 0} = ker(S^T) over the rationals (MathComp kermx), and nullity + rank = number of species. *)
+Theorem C19_nondeg_nullity : forall (net : list rxn) (iso : list str) (rc : rcert) (cs : list (list Z)) (mis : list nat) (d : nd),
+  let m := length (species_order net iso) in
+  let n := length (reaction_order net) in
+  let S := build_S net iso in
+  let F := mathcomp.algebra.rat.rat_fieldType in
+  rank_checked m n S rc = true ->
+  nondeg m (rc_r rc) cs mis = Some d ->
+  nd_nullity d = @mathcomp.algebra.mxalgebra.mxrank F _ _ (@mathcomp.algebra.mxalgebra.kermx F m n (SK.lib.RankBridge.toM m n S)) /\
+  nd_nullity d + rc_r rc = m.
+Proof. exact SK.proof.C19_Nullity.nondeg_nullity_exact. Qed.
+Print Assumptions C19_nondeg_nullity.
+
+(** (22) nondegeneracy_test, logic part: max_complex_size is the largest total coefficient of a stored complex (0 without
+         complexes); the per-basis flag says whether some complex of that size contains the species at the vector's largest
+         entry; IndexError can only come from a complex of maximal size that is shorter than that position; the stored result
+         carries exactly these values. *)
+Theorem C19_nondeg_logic : forall cs : list (list Z),
+  (cs = [] -> max_complex_size cs = 0%Z) /\
+  (cs <> [] -> (exists c, In c cs /\ complex_size c = max_complex_size cs) /\
+               forall c, In c cs -> (complex_size c <= max_complex_size cs)%Z) /\
+  (forall mx i,
+     (nd_scan cs mx i = None -> exists c, In c cs /\ complex_size c = mx /\ length c <= i) /\
+     (forall b, nd_scan cs mx i = Some b ->
+        (b = true <-> exists c, In c cs /\ complex_size c = mx /\ (0 < nth i c 0)%Z)) /\
+     ((forall c, In c cs -> i < length c) -> nd_scan cs mx i <> None)) /\
+  (forall m r mis d, nondeg m r cs mis = Some d ->
+     nd_max d = max_complex_size cs /\ nd_nullity d = m - r /\ map fst (nd_per d) = firstn (length (nd_per d)) mis).
+Proof. exact nondeg_logic_spec. Qed.
+Print Assumptions C19_nondeg_logic.
+
+(** (23) nondegeneracy_test right after compute_summary of the SAME network never raises IndexError; after an edit that adds
+         species, without a new compute_summary, it does (S is rebuilt from the current network, the complexes are the stored
+         ones): A -> B analysed, B -> 2C + D added.  Outside the property text (a diagnostic); modelled as the code behaves. *)
+Theorem C19_nondeg_stale_complexes_witness :
+  (forall o x mis st, s_sum st = Some (snap_of o x) ->
+     (forall i, In i mis -> i < length (species_order (hs_net x) (hs_iso x))) ->
+     snd (op_nondeg o x mis st) <> RIndexError) /\
+  (exists x1 x2 mis1 mis2,
+     snd (apply_op default_opts (ONondeg, x2, mis2) (run_calls default_opts [(OCrn true, x1, mis1)] ast_init)) = RIndexError).
+Proof. exact nondeg_index_error_spec. Qed.
+Print Assumptions C19_nondeg_stale_complexes_witness.
+
+(** (24) the attribute / identifier level of _complex_vectors (model/C19_Nodes.v: classification of the nodes by kind / bipartite
+         flag, species dict by node identifier in label order, per reaction node the accumulation over its in- and out-arcs
+         with optional role / stoich attributes) refines the label-level model: on the export of ANY reaction list under ANY
+         injective identifier assignment (species and reaction identifiers disjoint, as in every graph) it computes exactly
+         the complex list and the complex graph of (1)/(1b) (duplicate edge ids allowed: no NoDup premise).  Evaluated by the correspondence on raw attributed graphs. *)
+Theorem C19_nodes_refine : forall (ids idr : str -> N) (net : list rxn) (iso : list str),
+  (forall s s', In s (species_set net iso) -> In s' (species_set net iso) -> ids s = ids s' -> s = s') ->
+  (forall e e', In e net -> In e' net -> idr (rid e) = idr (rid e') -> rid e = rid e') ->
+  (forall s e, In s (species_set net iso) -> In e net -> ids s <> idr (rid e)) ->
+  net <> [] -> species_set net iso <> [] ->
+  complex_graph_nodes (raw_export ids idr net iso) = Some (complex_graph net iso).
+Proof. exact nodes_refine. Qed.
+Print Assumptions C19_nodes_refine.
+
+(** (25) evaluation: for plain cases the correspondence evaluates run19f (model/C19_Fast.v: let-bound sub-terms, frontier
+         closure lib/C19_FastClosure.sat_f, fold-based certificate checker lib/C19_FastRank.check_rank_f).  For every certificate
+         flag the fast observable IS the observable of model/C19_Model.v; the fast certificate flag implies certs_ok; hence
+         whenever the evaluated observable shows the flag 1 it is run19 of the same inputs with accepted certificates (the
+         premise of (6), (8), (9), (10), (12), (18)). *)
+Theorem C19_fast_eval : forall (net : list rxn) (iso : list str) (rc : rcert) (ccs : list rcert),
+  (forall flag, run19_flag_f flag net iso rc ccs = run19_flag flag net iso rc ccs) /\
+  (certs_ok_f net iso rc ccs = true -> certs_ok net iso rc ccs = true) /\
+  (certs_ok_f net iso rc ccs = true -> run19f net iso rc ccs = run19 net iso rc ccs /\ certs_ok net iso rc ccs = true).
+Proof. exact fast_eval. Qed.
+Print Assumptions C19_fast_eval.
